@@ -8,7 +8,7 @@ From J5V.proofs Require Import CodecDecProofs CodecDecExact CodecDecTreeProofs C
 From J5V.model Require CodecDecTime.
 From J5V.proofs Require CodecDecTime.
 From J5V.lib Require Civil Decimal.
-From J5V.proofs Require CodecDecDecimal.
+From J5V.proofs Require CodecDecDecimal CodecDecTimeFast.
 Import ListNotations.
 Local Open Scope N_scope.
 
@@ -437,6 +437,13 @@ Example C03_example_timestamps :
   CodecDecTime.go_time_parse (T.text T.ex_utc) = Some (1577836800%Z, 0%Z) /\
   CodecDecTime.go_time_parse (T.text (T.mkT 2021 2 29 false 0 0 0 None None)) = None.
 Proof. repeat split; vm_compute; reflexivity. Qed.
+
+(* the strict fast path of time.Parse (lib/Civil.v parse_rfc3339, against which the encoder's timestamp
+   text is proved to read back) is subsumed by the modelled parser *)
+Theorem C03_time_fast_path_subsumed : forall s r,
+  Civil.parse_rfc3339 s = Some r -> CodecDecTime.go_time_parse s = Some r.
+Proof. exact CodecDecTimeFast.fast_path_extends. Qed.
+Print Assumptions C03_time_fast_path_subsumed.
 
 (* ------------------------------------------------------------------ decimals *)
 (* decimal.NewFromString / Decimal.String() are modelled by lib/Decimal.v (dec_parse, dec_print: a decimal
